@@ -40,7 +40,7 @@ THEOREMS = [P + n for n in [
     "simplify_comparison_nonnull_sound", "simplify_comparison_where_sound", "simplify_comparison_false_nonnull",
     "simplify_comparison_not_where_counterexample", "simplify_comparison_nonfalse_sound", "exact_pair_sound",
     "flat_simplify_sound", "simplify_connectors_exact_sound", "simplify_literals_add_sound", "simplify_literals_mul_sound",
-    "distributive_law_sound", "distribute_exact", "uniq_sort_sound", "remove_complements_sound",
+    "distributive_law_sound", "distribute_exact", "generated_distribute_no_sharing", "distribute_copy_false_shares", "uniq_sort_sound", "remove_complements_sound",
     "propagate_constants_where_sound", "propagate_constants_nonnull_sound", "propagate_constants_null_counterexample",
     "checkStep_sound", "checkStep_exact", "nonnull_needed", "nonnull_needed_absorb",
     "simplify_comparison_and_false_counterexample", "normalize_result", "while_changing_sound",
@@ -177,6 +177,38 @@ def parens_guard_from_ast(chk: Check):
             "def parensGuard (t p : PKind) : Bool :=\n" + body)
 
 
+def distribute_uses_from_ast(chk: Check) -> str:
+    """which operands normalize._distribute copies and which it moves (ast of the from_func calls)"""
+    src = open(os.path.join(REPO, "sqlglot", "optimizer", "normalize.py"), encoding="utf-8").read()
+    fn = next((n for n in ast.parse(src).body if isinstance(n, ast.FunctionDef) and n.name == "_distribute"), None)
+    uses = []
+    ok = fn is not None
+    if ok:
+        lambdas = [n for n in ast.walk(fn) if isinstance(n, ast.Lambda)]
+        in_lambda = {id(x) for lam in lambdas for x in ast.walk(lam)}
+        calls = [n for n in ast.walk(fn) if isinstance(n, ast.Call) and isinstance(n.func, ast.Name) and n.func.id == "from_func"]
+        calls.sort(key=lambda n: (n.lineno, n.col_offset))
+        names = {"a": "a", "c": "c", "b.left": "bLeft", "b.right": "bRight"}
+        for call in calls:
+            copied = True
+            for kw in call.keywords:
+                if kw.arg == "copy":
+                    copied = not (isinstance(kw.value, ast.Constant) and kw.value.value is False)
+                else:
+                    ok = False
+            for arg in call.args:
+                uses.append((id(call) in in_lambda, names.get(ast.unparse(arg), "other"), copied))
+        if len(calls) != 4:
+            ok = False
+        # to_func must not copy (its operands are the fresh clauses) - pinned too
+    if not ok:
+        chk.broken.append({"kind": "translator", "what": "C06 translator: structure changed: normalize._distribute is not four from_func(x, y) calls"})
+    chk.cov["distribute_uses"] = [{"per_child": u[0], "operand": u[1], "copied": u[2]} for u in uses]
+    return ("/-- the operand uses of normalize._distribute (ast): (inside the per-child lambda, operand, deep-copied?) -/\n"
+            "def distributeUses : List DistUse := ["
+            + ", ".join(f"⟨{'true' if u[0] else 'false'}, .{u[1]}, {'true' if u[2] else 'false'}⟩" for u in uses) + "]\n")
+
+
 def translate(chk: Check) -> str:
     exp, S, N = sg()
     from sqlglot.dialects.dialect import Dialect, Dialects
@@ -238,6 +270,7 @@ def translate(chk: Check) -> str:
         + "def dialectFlags : List (String × Bool × Bool) := ["
         + ", ".join(f"({json.dumps(n)}, {'true' if a else 'false'}, {'true' if b else 'false'})" for n, a, b in flags) + "]\n"
         + parens_guard_from_ast(chk)
+        + distribute_uses_from_ast(chk)
         + "end SqlglotModel.Generated.C06\n"
     )
 
@@ -512,6 +545,49 @@ def gen_const(rng, depth):
     return f"CASE WHEN {a()} THEN {a()} ELSE {a()} END"
 
 
+CONN_VARS = ["b0", "b1", "b2", "b3", "b4", "b5", "b6", "b7"]
+
+
+def conn_shape(rng, leaves, top=None):
+    """a random binary tree of AND / OR over the given leaves, explicitly parenthesised (left-deep, right-nested, balanced)"""
+    if len(leaves) == 1:
+        return leaves[0] if rng.random() < 0.85 else f"NOT {leaves[0]}"
+    k = rng.choice([1, len(leaves) - 1, len(leaves) // 2, rng.randint(1, len(leaves) - 1)])
+    op = top or rng.choice(["AND", "OR"])
+    sub = None if rng.random() < 0.5 else ("AND" if op == "OR" else "OR")
+    l, r = conn_shape(rng, leaves[:k], sub if rng.random() < 0.6 else op), conn_shape(rng, leaves[k:], sub if rng.random() < 0.6 else op)
+    wrap = lambda x, n: f"({x})" if n > 1 else x  # noqa
+    return f"{wrap(l, k)} {op} {wrap(r, len(leaves) - k)}"
+
+
+def conn_template(rng):
+    """both operands of the top connector are connectors of the other polarity, children themselves parenthesised chains,
+    right-nested operands, 6-8 distinct variables (what the cross-product branch of _distribute needs)"""
+    n = rng.choice([6, 6, 7, 8])
+    vs = CONN_VARS[:n]
+    rng.shuffle(vs)
+    top = rng.choice(["OR", "AND"])
+    inner = "AND" if top == "OR" else "OR"
+    r = rng.random()
+    if r < 0.5:
+        k = rng.choice([3, 4]) if n >= 7 else rng.choice([3, 4])
+        a = conn_shape(rng, vs[:k], inner)
+        b = conn_shape(rng, vs[k:], inner)
+        return f"({a}) {top} ({b})"
+    if r < 0.75:
+        p_, q_, r_, s_, t_, u_ = vs[:6]
+        v_ = vs[6] if n > 6 else vs[0]
+        return f"(({p_} {inner} {q_}) {inner} ({r_} {inner} {s_})) {top} ({t_} {inner} ({u_} {inner} {v_}))"
+    return conn_shape(rng, vs)
+
+
+CONN_CORPUS = [
+    "((b0 AND b1) AND (b2 AND b3)) OR (b4 AND (b5 AND b6))", "((b0 OR b1) OR (b2 OR b3)) AND (b4 OR (b5 OR b6))",
+    "((b3 AND b1) AND (b2 AND b0)) OR (b6 AND (b5 AND b4))", "(b0 AND (b1 AND b2)) OR ((b3 AND b4) AND (b5 AND b6))",
+    "((b0 AND b1) AND (b2 AND b3)) OR (b4 AND (b5 AND b6)) OR b7", "NOT (((b0 AND b1) AND (b2 AND b3)) OR (b4 AND (b5 AND b6)))",
+]
+
+
 def branch_template(rng):
     """a CASE / IF / COALESCE whose condition folds, with a compound branch, under a parent that binds tighter"""
     br = rng.choice(["i0 + i1", "i0 - 1", "b0 OR b1", "b0 AND b1", "i0 < i1", "i0 = 1", "NOT b0", "-i0", "i0 IN (1, 2)", "i0 * 2"])
@@ -675,7 +751,8 @@ def templates(rng, cols):
         f"({A} {other} {B}) {conn} ({A} {other} NOT {B})", f"({A} {other} {B}) {conn} ({C} {other} {B})",
         f"({A} {other} {B}) {conn} ({A} {other} {B} {other} {C})", f"{C} {conn} {A} {conn} {B} {conn} {A}",
         f"NOT ({A} {conn} {B})", f"NOT NOT {A}", f"NOT NOT ({c} {o1} {l1})", f"NOT NOT {c}", f"NOT ({c} {o1} {l1})", f"NOT {l1}", f"NOT ((NULL))",
-        f"COALESCE({c}, {l1}) {o1} {l2}", f"{l2} {o1} COALESCE({c}, {l1})", f"COALESCE({c}, {c2}, {l1}) {o1} {l2}", f"COALESCE({l1}, {c}) {o1} {l2}", f"COALESCE({c})", f"COALESCE({c}, NULL, {c2}) {o1} {l2}", f"{l2} {o1} COALESCE({c}, {c2}, -{l1}, {c})",
+        f"COALESCE({c}, {l1}) {o1} {l2}", f"{l2} {o1} COALESCE({c}, {l1})", f"COALESCE({c}, {c2}, {l1}) {o1} {l2}", f"COALESCE({l1}, {c}) {o1} {l2}", f"COALESCE({c})", f"COALESCE({c}, {l1}) IS NOT NULL", f"COALESCE({c}, {l1}) IS NULL",
+        f"NOT COALESCE({c}, {c2}, {l1}) IS NULL", f"COALESCE({c}, {l1}) IS NOT NULL {conn} {A}", f"COALESCE({A}, TRUE) IS TRUE", f"COALESCE({A}, FALSE) IS NOT TRUE", f"COALESCE({c}, NULL, {c2}) {o1} {l2}", f"{l2} {o1} COALESCE({c}, {c2}, -{l1}, {c})",
         f"{c} + {l1} {o1} {l2}", f"{l1} - {c} {o1} {l2}", f"{l1} + {c} {o1} {l2}", f"{c} - {l1} {o1} {l2}", f"-{c} + {l1} {o1} {l2}",
         f"{c} BETWEEN {l1} AND {l2} {conn} {c} {o1} {l2}", f"NOT {c} BETWEEN {l1} AND {l2}",
         f"{c} = {c2} AND {c} = {l1}", f"{c} = {l1} AND {c2} {o1} {c}", f"NOT {c} {o1} {l2} AND NOT {c} = {l1}",
@@ -733,7 +810,9 @@ def paren_template(rng):
 def gen_sql(rng, nonnull=False):
     cols = {"b": BCOLS + (NB * 3 if nonnull else []), "i": ICOLS + (NI * 2 if nonnull else [])}
     r = rng.random()
-    if r < 0.05:
+    if r < 0.04:
+        return conn_template(rng)
+    if r < 0.08:
         return branch_template(rng)
     if r < 0.12:
         return const_template(rng)
@@ -759,7 +838,7 @@ def typed(e):
     from sqlglot.optimizer.annotate_types import annotate_types
     if SCHEMA is None:
         t = {}
-        for c in BCOLS:
+        for c in BCOLS + [v for v in CONN_VARS if v not in BCOLS]:
             t[c] = "boolean"
         for c in ICOLS:
             t[c] = "int"
@@ -785,7 +864,7 @@ def to_json(n):
         name = n.name
         if not re.fullmatch(r"[bcin]\d", name):
             raise NotInFragment("column " + name)
-        return ["bcol" if is_bool_col(name) else "icol", int(name[1]) + (5 if name[0] in "cn" else 0), is_nonnull_col(n)]
+        return ["bcol" if is_bool_col(name) else "icol", int(name[1]) + (10 if name[0] in "cn" else 0), is_nonnull_col(n)]
     if t is exp.Literal:
         if n.is_string or not n.this.isdigit():
             raise NotInFragment("literal")
@@ -843,7 +922,7 @@ def json_sql(j):
         return str(j[1])
     if t in ("bcol", "icol"):
         k = j[1]
-        return (("c" if k >= 5 else "b") if t == "bcol" else ("n" if k >= 5 else "i")) + str(k % 5)
+        return (("c" if k >= 10 else "b") if t == "bcol" else ("n" if k >= 10 else "i")) + str(k % 10)
     if t in ops:
         return f"({json_sql(j[1])} {ops[t]} {json_sql(j[2])})"
     if t == "not":
@@ -980,6 +1059,10 @@ class Observer:
                 return orig(expression, *args, **kwargs)
             before = expression.copy(); ctx = obs._ctx(expression, args)
             out = orig(expression, *args, **kwargs)
+            if name == "distributive_law" and isinstance(out, exp.Expr):
+                dup = shared_nodes(out)
+                if dup:
+                    ctx["aliased"] = dup[0].sql()
             obs.log.append((label or name, ctx, before, out.copy() if isinstance(out, exp.Expr) else out))
             if name != "simplify_parens":
                 obs._step_text(label or name, expression, before, out)
@@ -1010,7 +1093,8 @@ class Observer:
                 sp = a.parent is b.parent
                 r = simplifier(e, a, b)
                 kind = "none" if r is None else ("same" if r is e else "res")
-                obs.log.append(("pair", {"cls": type(e).__name__, "pif": pif, "sp": sp, "kind": kind}, (a0, b0), r.copy() if kind == "res" else None))
+                obs.log.append(("pair", {"cls": type(e).__name__, "pif": pif, "sp": sp, "kind": kind, "negate": bool(e.args.get("negate"))},
+                                (a0, b0), r.copy() if kind == "res" else None))
                 return r
             out = orig(self_, expression, cb, root)
             obs.log.append(("flat", {"cls": type(expression).__name__, "pif": pif, "gate": gate, "p": None}, whole_before,
@@ -1158,7 +1242,7 @@ def step_pairs(log):
                 continue
             a, b = before
             cls = getattr(exp, ctx["cls"])
-            be = cls(this=a.copy(), expression=b.copy())
+            be = cls(this=a.copy(), expression=b.copy(), **({"negate": True} if ctx.get("negate") else {}))
             name = "_simplify_connectors" if cls in (exp.And, exp.Or) else "_simplify_binary"
             if name == "_simplify_binary" and cls is exp.Sub and not ctx["sp"]:
                 continue
@@ -1170,6 +1254,14 @@ def step_pairs(log):
 
 
 TEXT_DIALECTS = ["duckdb", "postgres", "mysql"]
+
+
+def text_dialects_for(chk, sql):
+    """base dialect always; one more (all inputs in thorough, every second input in quick)"""
+    h = zlib.crc32(sql.encode())
+    if chk.quick and (h >> 3) % 2:
+        return (None,)
+    return (None, TEXT_DIALECTS[h % len(TEXT_DIALECTS)])
 
 
 def text_differs(ref, tree, dialect):
@@ -1210,8 +1302,34 @@ def sub_env_of(small, big):
     return all(k in big and big[k] == v for k, v in small.items())
 
 
+def is_negate_form(e):
+    """`NOT x IS NULL` written as `Is(x, NULL, negate=True)`, the tree the postgres parser builds for `x IS NOT NULL`"""
+    exp, _, _ = sg()
+
+    def f(n):
+        if isinstance(n, exp.Not) and isinstance(n.this, exp.Is) and not n.this.args.get("negate"):
+            return exp.Is(this=n.this.this.copy(), expression=n.this.expression.copy(), negate=True)
+        return n
+    return e.copy().transform(f)
+
+
+def shared_nodes(e):
+    """node objects reachable twice (one subtree object sitting in two places): C08's no-aliasing invariant on a result"""
+    seen, dup = set(), []
+    stack = [e]
+    while stack:
+        n = stack.pop()
+        if id(n) in seen:
+            dup.append(n)
+            continue
+        seen.add(id(n))
+        stack.extend(n.iter_expressions())
+    return dup
+
+
 def check_input(chk: Check, sql, variant, api, dialect, report=True):
     """run one API on one input with the observer on; evaluate end-to-end and every step. Returns (log, viol list)."""
+    variant_in = variant
     exp, S, N = sg()
     import sqlglot
     try:
@@ -1219,6 +1337,10 @@ def check_input(chk: Check, sql, variant, api, dialect, report=True):
     except Exception:
         chk.count("gen:parse-fail")
         return [], []
+    force_neg = variant.endswith("+isneg")
+    variant = variant.split("+")[0]
+    if force_neg or zlib.crc32(sql.encode()) % 3 == 0:
+        e0 = is_negate_form(e0)
     e = typed(e0) if variant != "untyped" else e0
     from sqlglot.dialects.dialect import Dialect
     d = Dialect.get_or_raise(dialect)
@@ -1229,16 +1351,32 @@ def check_input(chk: Check, sql, variant, api, dialect, report=True):
     except Exception as ex:  # the property is about values; a crash is reported as a violation too
         key = f"{api}:exception:{type(ex).__name__}"
         viol = [{"key": key, "what": f"{api} raised {type(ex).__name__}: {ex}", "kind": "exception", "rule": api,
-                 "replay": {"sql": sql, "variant": variant, "api": api, "dialect": dialect}}]
+                 "replay": {"sql": sql, "variant": variant_in, "api": api, "dialect": dialect}}]
         if report:
             chk.report_violation(key, viol[0]["what"], viol[0]["replay"], {"kind": "exception", "rule": api})
         return list(OBS.log), viol
     log = list(OBS.log)
     viols = []
+    dup = shared_nodes(out)
+    chk.count(f"alias:{api}:{'shared' if dup else 'ok'}")
+    if dup:
+        viols.append({"key": f"{api}:aliasing", "rule": api, "kind": "aliasing",
+                      "what": f"{api}: the result of `{e.sql()}` contains the same node object twice (`{dup[0].sql()}`): a later in-place rewrite changes both places",
+                      "replay": {"sql": sql, "variant": variant_in, "api": api, "dialect": dialect}, "size": 10 ** 6})
+    for rule, ctx, be, af in log:
+        if rule == "distributive_law" and ctx.get("aliased"):
+            viols.append({"key": "distributive_law:aliasing", "rule": "distributive_law", "kind": "aliasing",
+                          "what": f"step distributive_law on `{be.sql()}` returned a tree that contains the node `{ctx['aliased']}` twice (shared, not copied)",
+                          "replay": {"sql": sql, "variant": variant_in, "api": api, "dialect": dialect, "rule": "distributive_law", "before": be.sql()},
+                          "size": len(be.sql())})
+            break
     step_diff_envs = []
+    quiet_steps = []  # changed steps that do not differ on their own domain (a larger end-to-end domain may still reach them)
     for rule, ctx, be, af in step_pairs(log):
         st, res = differing_envs(be, af)
         chk.count(f"step:{rule}:{'changed' if st == 'ok' else st}")
+        if st == "ok" and not res:
+            quiet_steps.append((rule, be, af))
         if st != "ok" or not res:
             continue
         kind = classify(res)
@@ -1247,7 +1385,7 @@ def check_input(chk: Check, sql, variant, api, dialect, report=True):
         key = f"{rule}:{skeleton(be)}=>{skeleton(af)}"
         step_diff_envs.append((comp(be), comp(af)))
         viols.append({"key": key, "rule": rule, "kind": kind, "what": f"step {rule}: `{be.sql()}` -> `{af.sql()}` differs under {res[0][0]}: {res[0][1]!r} vs {res[0][2]!r} ({kind})",
-                      "replay": {"sql": sql, "variant": variant, "api": api, "dialect": dialect, "rule": rule, "before": be.sql(), "after": af.sql(), "env": res[0][0]},
+                      "replay": {"sql": sql, "variant": variant_in, "api": api, "dialect": dialect, "rule": rule, "before": be.sql(), "after": af.sql(), "env": res[0][0]},
                       "size": len(be.sql())})
     # keep the innermost (smallest) violating steps: an outer step whose every differing env extends a smaller one's is explained
     viols.sort(key=lambda v: v["size"])
@@ -1256,28 +1394,60 @@ def check_input(chk: Check, sql, variant, api, dialect, report=True):
     chk.count(f"e2e:{api}:{st if st != 'ok' else ('differs' if res else 'equal')}")
     if st == "ok" and res:
         unexplained = [r for r in res if not any(step_differs(fa, fb, r[0]) for fa, fb in step_diff_envs)]
+        if unexplained and quiet_steps:
+            # the end-to-end domain has values (e.g. a folded constant) the step's own domain lacks: find the first changed
+            # step that differs under such an assignment and report THAT step (rule + skeleton + kind), not the pipeline
+            compiled = []
+            for rule2, be2, af2 in quiet_steps:
+                try:
+                    compiled.append((rule2, be2, af2, comp(be2), comp(af2)))
+                except Unsupported:
+                    pass
+            still = []
+            blamed = set()
+            for r in unexplained:
+                hit = next((c for c in compiled if step_differs(c[3], c[4], r[0])), None)
+                if hit is None:
+                    still.append(r)
+                    continue
+                rule2, be2, af2, fa2, fb2 = hit
+                if id(be2) in blamed:
+                    continue
+                blamed.add(id(be2))
+                cols2 = {c.name for c in be2.find_all(exp.Column)} | {c.name for c in af2.find_all(exp.Column)}
+                env2 = {k: v for k, v in r[0].items() if k in cols2}
+                u2, v2 = fa2(env2), fb2(env2)
+                kind2 = classify([(env2, u2, v2)])
+                if rule2 == "propagate_constants" and propagated_non_conjunct(be2, af2):
+                    kind2 = "eq-not-conjunct"
+                viols.append({"key": f"{rule2}:{skeleton(be2)}=>{skeleton(af2)}", "rule": rule2, "kind": kind2,
+                              "what": f"step {rule2}: `{be2.sql()}` -> `{af2.sql()}` differs under {env2}: {u2!r} vs {v2!r} ({kind2}); "
+                                      f"found through the end-to-end assignment {r[0]}",
+                              "replay": {"sql": sql, "variant": variant_in, "api": api, "dialect": dialect, "rule": rule2, "before": be2.sql(),
+                                         "after": af2.sql(), "env": env2}, "size": len(be2.sql())})
+            unexplained = still
         if unexplained:
             env, u, v = unexplained[0]
             viols.append({"key": f"{api}:e2e:{skeleton(e)}=>{skeleton(out)}", "rule": api, "kind": classify(unexplained),
                           "what": f"{api}: `{e.sql()}` -> `{out.sql()}` differs under {env}: {u!r} vs {v!r}, not explained by a violating step",
-                          "replay": {"sql": sql, "variant": variant, "api": api, "dialect": dialect, "env": env}, "size": 10 ** 6})
+                          "replay": {"sql": sql, "variant": variant_in, "api": api, "dialect": dialect, "env": env}, "size": 10 ** 6})
     # text level: what simplify / normalize return is used AS SQL — grouping lives in Paren nodes, so the result must mean
     # the same after printing and parsing again (base dialect and one more)
     text_viols = []
     for rule, ctx, pb, pa in log:
         if rule != "parens_text":
             continue
-        for td in (None, TEXT_DIALECTS[zlib.crc32(sql.encode()) % len(TEXT_DIALECTS)]):
+        for td in text_dialects_for(chk, sql):
             r = text_differs(pb, pa, td)
             chk.count(f"text:step:{'ok' if r is None else r[0]}")
             if r is not None and r[0] in ("differs", "unparsable"):
                 text_viols.append({"key": f"simplify_parens:text:{ctx['pk']}({ctx['ck']})", "rule": "simplify_parens", "kind": "text-" + r[0],
                                    "what": f"step simplify_parens drops the parentheses of `{pb.sql(dialect=td)}`: `{pa.sql(dialect=td)}` {r[1]} (dialect {td})",
-                                   "replay": {"sql": sql, "variant": variant, "api": api, "dialect": dialect, "rule": "simplify_parens",
+                                   "replay": {"sql": sql, "variant": variant_in, "api": api, "dialect": dialect, "rule": "simplify_parens",
                                               "before": pb.sql(dialect=td), "after": pa.sql(dialect=td), "text_dialect": td}, "size": len(pb.sql())})
                 break
     if st == "ok" and not res:
-        for td in (None, TEXT_DIALECTS[zlib.crc32(sql.encode()) % len(TEXT_DIALECTS)]):
+        for td in text_dialects_for(chk, sql):
             r = text_differs(e, out, td)
             chk.count(f"text:e2e:{'ok' if r is None else r[0]}")
             if r is not None and r[0] in ("differs", "unparsable") and not text_viols:
@@ -1293,12 +1463,12 @@ def check_input(chk: Check, sql, variant, api, dialect, report=True):
                     text_viols.append({"key": f"{ctx2['rule']}:text:{ctx2['pk']}({ctx2['ck']})", "rule": ctx2["rule"], "kind": "text-" + r2[0],
                                        "what": f"step {ctx2['rule']} puts `{pa2.sql(dialect=td)}` where `{pb2.sql(dialect=td)}` was: {r2[1]} (dialect {td}); "
                                                f"end to end {api}: `{e.sql()}` -> `{out.sql(dialect=td)}`",
-                                       "replay": {"sql": sql, "variant": variant, "api": api, "dialect": dialect, "rule": ctx2["rule"],
+                                       "replay": {"sql": sql, "variant": variant_in, "api": api, "dialect": dialect, "rule": ctx2["rule"],
                                                   "before": pb2.sql(dialect=td), "after": pa2.sql(dialect=td), "text_dialect": td}, "size": len(pb2.sql())})
                     break
                 text_viols.append({"key": f"{api}:text:{skeleton(e)}=>{skeleton(out)}", "rule": api, "kind": "text-" + r[0],
                                    "what": f"{api}: `{e.sql()}` -> `{out.sql(dialect=td)}` {r[1]} (dialect {td}); the returned tree itself evaluates like the input",
-                                   "replay": {"sql": sql, "variant": variant, "api": api, "dialect": dialect, "text_dialect": td}, "size": 10 ** 6})
+                                   "replay": {"sql": sql, "variant": variant_in, "api": api, "dialect": dialect, "text_dialect": td}, "size": 10 ** 6})
                 break
     seen_text = set()
     for v in text_viols:
@@ -1310,7 +1480,7 @@ def check_input(chk: Check, sql, variant, api, dialect, report=True):
         if not (in_normal_form(out, dnf) or out == e or between_rewritten(out) == between_rewritten(e)):
             viols.append({"key": f"{api}:not-normal-form:{skeleton(e)}", "rule": api, "kind": "not-normal-form",
                           "what": f"normalize(dnf={dnf}) returned `{out.sql()}` for `{e.sql()}`: neither in normal form nor the input",
-                          "replay": {"sql": sql, "variant": variant, "api": api, "dialect": dialect}, "size": 10 ** 6})
+                          "replay": {"sql": sql, "variant": variant_in, "api": api, "dialect": dialect}, "size": 10 ** 6})
         chk.count(f"nf:{api}:{'normal' if in_normal_form(out, dnf) else 'unchanged'}")
     if report:
         seen_rules = set()
@@ -1330,6 +1500,8 @@ def model_request(rule, ctx, before, after):
     """driver request + expected answer for one observed step, or None when the step has no mirror/checker"""
     exp, _, _ = sg()
     if rule == "pair":
+        if ctx.get("negate"):
+            return None  # Is(negate=True) is outside the model's fragment (evaluated by the search oracle only)
         a, b = before
         cls = ctx["cls"]
         if cls in ("And", "Or"):
@@ -1493,8 +1665,10 @@ def correspond(chk: Check, logs, e2e_norm):
 def canon(j):
     """a model term modulo associativity / commutativity / idempotence / parentheses / neutral elements of AND and OR
     (what uniq_sort may change): used to compare the distributive-law mirror (run with uniq_sort = identity)"""
-    if not isinstance(j, list) or not j or not isinstance(j[0], str):
+    if not isinstance(j, list) or not j:
         return j
+    if not isinstance(j[0], str):  # a list of terms (IN list, COALESCE arguments, CASE branches)
+        return [canon(x) for x in j]
     t = j[0]
     if t == "paren":
         return canon(j[1])
@@ -1664,8 +1838,8 @@ def evaluator_differential(chk: Check, sqls):
                 except sqlite3.Error:
                     chk.count("eval:sqlite-rejects")
             if je is not None:
-                b = [env.get(f"b{i}") for i in range(5)] + [env.get(f"c{i}") for i in range(5)]
-                i_ = [env.get(f"i{i}") for i in range(5)] + [env.get(f"n{i}") for i in range(5)]
+                b = [env.get(f"b{i}") for i in range(10)] + [env.get(f"c{i}") for i in range(10)]
+                i_ = [env.get(f"i{i}") for i in range(10)] + [env.get(f"n{i}") for i in range(10)]
                 lines.append(json.dumps({"op": "eval", "e": je, "b": b, "i": i_}))
                 expect.append((sql, env, v))
     if n_bad:
@@ -1698,6 +1872,9 @@ CORPUS = [
     ("i0 = 2 + 3 AND i0 < i1 AND i1 < 7", "untyped", "simplify_cp"),
     ("IF(TRUE, b0 OR b1, b2) AND b2", "untyped", "simplify"), ("CASE WHEN FALSE THEN 1 ELSE i0 + i1 END * 2", "untyped", "simplify"),
     ("-CASE WHEN TRUE THEN i0 + i1 END", "untyped", "simplify"), ("COALESCE(i0 + i1) * 2", "untyped", "simplify_co"),
+    ("COALESCE(i0, 1) IS NOT NULL", "untyped+isneg", "simplify_co"), ("COALESCE(i0, i1, 2) IS NOT NULL AND b0", "untyped+isneg", "simplify_co"),
+    ("COALESCE(i0, 1) IS NOT NULL", "untyped", "simplify_co"), ("COALESCE(b0, TRUE) IS NOT TRUE", "untyped+isneg", "simplify_co"),
+    ("i1 = 2 + 3 AND i1 <> i0 - i1 AND i0 - i1 <= 5", "untyped", "simplify_cp"),
     ("-NULL IS NULL", "untyped", "simplify"), ("i0 > 1 AND -NULL IS NULL", "untyped", "simplify"),
     ("i0 - 5 - 3 > 1", "untyped", "simplify"), ("5 - i0 < 2", "untyped", "simplify"), ("b0 AND TRUE", "untyped", "simplify"),
 ]
@@ -1739,7 +1916,7 @@ def run(chk: Check) -> None:
     dlist = list(dialects.values())
     rng = chk.rng
     t0 = time.time()
-    budget = chk.pick(36, 480)
+    budget = chk.pick(32, 480)
     if chk.broken:
         budget *= 2
     all_logs, e2e_norm, sqls = [], [], []
@@ -1758,6 +1935,7 @@ def run(chk: Check) -> None:
     for sql, variant, api in CORPUS:
         for d in dlist[:2]:
             one(sql, variant, api, d)
+    marks = {"corpus": round(time.time() - t0, 1)}
     # complete sweep of the comparison-pair table: 6 x 6 operators x {equal, smaller, larger literal} x {AND, OR}
     for o1 in CMPS:
         for o2 in CMPS:
@@ -1765,7 +1943,7 @@ def run(chk: Check) -> None:
                 for conn in ("AND", "OR"):
                     # quick tier: the direct call (cheap, both operand orders) always; the pipeline routes sampled,
                     # except the tie points (equal constants) which always run; thorough: everything
-                    if chk.quick and l1 != l2 and rng.random() > 0.3:
+                    if chk.quick and l1 != l2 and rng.random() > 0.2:
                         one(f"i0 {o1} {l1} {conn} i0 {o2} {l2}", "untyped", "connectors", dlist[0])
                         continue
                     one(f"i0 {o1} {l1} {conn} i0 {o2} {l2}", "untyped", "simplify", dlist[0])
@@ -1774,6 +1952,7 @@ def run(chk: Check) -> None:
                     # ... and through the pipeline, where a NOT-complement is rewritten in the same pass and not re-sorted
                     one(f"NOT i0 {COMPL[o1]} {l1} {conn} i0 {o2} {l2}", "untyped", "simplify", dlist[0])
                     one(f"i0 {o1} {l1} {conn} NOT i0 {COMPL[o2]} {l2}", "untyped", "simplify", dlist[0])
+    marks["pair"] = round(time.time() - t0, 1)
     # multi-pass sweep: compound shared term x late-folding constant on either side x range operators x AND/OR
     RANGE = ["<", "<=", ">", ">="]
     for T, K in (("i0 * i1", "5 - 3 - 1"), ("i0 + i1", "2 * (3 - 1) - 1")):
@@ -1781,7 +1960,7 @@ def run(chk: Check) -> None:
             for o1 in RANGE:
                 for o2 in RANGE:
                     for conn in ("AND", "OR"):
-                        if chk.quick and rng.random() > 0.4:
+                        if chk.quick and rng.random() > 0.25:
                             continue
                         one(f"{K} {o1} {T} {conn} {T} {o2} 7", "untyped", "simplify", dlist[0])
                         one(f"{T} {o2} 7 {conn} NOT ({T} + 1 {o1} 3)", "untyped", "simplify", dlist[0])
@@ -1789,17 +1968,30 @@ def run(chk: Check) -> None:
         for o2 in RANGE:
             one(f"i0 = 2 + 3 AND i0 {o1} i1 AND i1 {o2} 7", "untyped", "simplify_cp", dlist[0])
             one(f"i0 = 5 - 3 - 1 AND i0 {o1} i0 * i1 AND i0 * i1 {o2} 7", "untyped", "simplify_cp", dlist[0])
+    marks["multipass"] = round(time.time() - t0, 1)
+    # connector shapes: parenthesised / right-nested operands, >= 6 variables, for normalize (both forms) and the pipeline
+    for q in CONN_CORPUS:
+        for api in ("cnf", "dnf"):
+            one(q, "untyped", api, dlist[0])
+    for _ in range(chk.pick(4, 120)):
+        q = conn_template(rng)
+        for api in (("cnf", "dnf") if rng.random() < 0.7 else ("simplify",)):
+            one(q, rng.choice(["untyped", "typed"]), api, dlist[0])
+    marks["conn"] = round(time.time() - t0, 1)
     # constant sweep: every constant shape (NULL under unary minus / inside arithmetic ...) in every folding context
     for ci, ki, q in const_cases(with_index=True):
         # quick: the NULL-under-unary-minus shapes in the IS [NOT] NULL contexts always, the rest sampled; thorough: all
-        if chk.quick and not (ci < 4 and ki < 5) and rng.random() > 0.3:
+        if chk.quick and not (ci < 4 and ki < 5) and rng.random() > 0.2:
             continue
         one(q, "untyped", rng.choice(["simplify", "simplify", "simplify_co"]), dlist[0])
+    marks["const"] = round(time.time() - t0, 1)
     # Paren-removal sweep: every parent kind x child kind (sampled in quick; the IN / BETWEEN / arithmetic parents always)
     for q in paren_cases():
-        if chk.quick and rng.random() > 0.45:
+        if chk.quick and rng.random() > 0.3:
             continue
         one(q, "untyped", "simplify", dlist[0])
+    marks["paren"] = round(time.time() - t0, 1)
+    chk.cov["sweep_marks"] = marks
     chk.cov["sweep_s"] = round(time.time() - t0, 1)
     t_rand = time.time()
     while time.time() - t_rand < budget * 0.33 and len(chk.violations) < 6:
